@@ -1,4 +1,5 @@
 import CedarVerif.Driver.Ops.Core
+import CedarVerif.Driver.Ops.Ffi
 /-
 Line-protocol driver: one request per line on stdin, one reply per line on stdout.
 Unknown or malformed requests answer `(bad-op)`; the driver never defaults.
@@ -8,7 +9,8 @@ To add ops for a property: create `CedarVerif/Driver/Ops/<X>.lean` exporting `ha
 open CedarVerif
 
 def handlers : List (Sexp → Option String) := [
-  Ops.handleCore
+  Ops.handleCore,
+  Ops.handleFfi
 ]
 
 def handle (x : Sexp) : String :=
